@@ -19,9 +19,9 @@ one: `step` is one turn of the `while self.to_parse` loop of `_Decoder.decode` o
   that is not its own; the model does not recompute hash160);
 * `none` is `BTClibValueError`, whichever of the source's messages it carries.
 -/
-namespace Btc.Miniscript
+namespace Btc.Miniscript.Decode
 
-open Btc Gen.Miniscript
+open Btc Btc.Miniscript Gen.Miniscript
 
 /-- an entry of `_decomposed`: (op code, data). -/
 abbrev Entry := UInt8 × Bytes
@@ -142,7 +142,7 @@ def scriptNumber (e : Entry) : Option Int :=
 /-- the states of `_Decoder.to_parse`: the eight that read the script (`_SINGLE`, `_MAYBE_AND_V`,
     `_W_EXPR`, `_THRESH_BRANCH`, `_THRESH_END`, `_ENDIF`, `_ENDIF_NOTIF`, `_ENDIF_ELSE`; the two
     thresh() ones carry `count` and `threshold`) and the names of the fragments to build. -/
-inductive St
+inductive DState
   | single
   | maybeAndV
   | wExpr
@@ -159,7 +159,7 @@ inductive St
 /-- `_Decoder`: `entries[pos:]`, `to_parse` (head = top), `built` (head = last built). -/
 structure Machine where
   entries : List Entry
-  toParse : List St
+  toParse : List DState
   built : List Ms
   deriving DecidableEq, Inhabited
 
@@ -302,7 +302,7 @@ def readLeaf (ctx : Ctx) (keyOfHash : Bytes → Option Key) (es : List Entry) : 
 
 /-- `_combinator`: the op code that closes a fragment, and the states its arguments are read in
     (`_expect(a, b, c)` stacks them with `a` on top). -/
-def combinator (es : List Entry) (tp : List St) : Option (List Entry × List St) :=
+def combinator (es : List Entry) (tp : List DState) : Option (List Entry × List DState) :=
   match es with
   | [] => none
   | (op, _) :: rest =>
@@ -343,7 +343,7 @@ def buildAndor : List Ms → Option (List Ms)
 /-- one turn of the loop of `decode`, the state `st` having been popped from `m.toParse`:
     `_single` (with `_combinator`), `_maybe_and_v`, `_wrapped`, `_thresh_branch`, `_thresh_end`,
     `_endif`, `_endif_notif`, `_endif_else`, `_wrap_stacked`, `_build`. -/
-def step (ctx : Ctx) (keyOfHash : Bytes → Option Key) (st : St) (m : Machine) : Option Machine :=
+def step (ctx : Ctx) (keyOfHash : Bytes → Option Key) (st : DState) (m : Machine) : Option Machine :=
   let es := m.entries
   let tp := m.toParse
   match st with
@@ -478,4 +478,4 @@ def fromScript (ctx : Ctx) (keyOfHash : Bytes → Option Key) (script : Bytes) :
         else if !(typeOf ctx node).B then none
         else some node
 
-end Btc.Miniscript
+end Btc.Miniscript.Decode
